@@ -14,8 +14,8 @@ from .. import tlc, graphwalk
 from ..common import SPEC, NCPU, log
 from . import c25
 
-QUICK = ["empty", "A", "Adup", "B", "Bh", "E", "C", "D"]
-THOROUGH = ["A3", "B3", "C2", "D2", "B33", "A33"]
+QUICK = ["empty", "A", "Adup", "B", "Bh", "C", "D"]
+THOROUGH = ["E", "A3", "B3", "C2", "D2", "B33", "A33"]
 NOREPLAY = {"A33", "B33", "A3", "B3"}          # graphs too large to dump; model-checked only
 PT2PC = {"op": {"op"}, "done": {"done"}, "orw.tsw.for": {"r_tsw", "l_tsw"},
          "orw.end": {"r_end_break", "r_end_ret", "l_end", "rel", "c_end", "c_end_restart"},
